@@ -84,3 +84,50 @@ def run_mt_path(ctx, rep, n_quick=24, n_thorough=240, chunks=6):
     with ProcessPoolExecutor(max_workers=min(len(tasks), max(1, (os.cpu_count() or 2) - 1))) as ex:
         for r in ex.map(_worker, tasks):
             merge(rep, r)
+
+
+def _warm_worker(args):
+    """MultiTaskBCD.solve from user-supplied (W_init, XW_init): supports larger than the working set, rows that are zero
+    on the first task but not on the others, small p0, budgets that reach an extrapolation: on return the caller's
+    buffer is X W + b and a reported convergence is a certificate for the returned W"""
+    from .. import bbox
+    from ..impl import seed_numba, classify_exc
+    prop, seed, chunk, n_cases = args
+    rng = random.Random(f"{prop}-{seed}-mtwarm-{chunk}")
+    rep = Report(prop)
+    for c in range(n_cases):
+        case = bbox.gen_bb(rng, "MultiTaskBCD", warm=True)
+        n, p = case.X.shape
+        T = max(2, case.y.shape[1])
+        if case.y.shape[1] < T:
+            case.y = np.column_stack([case.y] + [np.array([rng.gauss(0, 1) for _ in range(n)]) for _ in range(T - case.y.shape[1])])
+        fi = case.fit_intercept
+        case.pen = bbox.Blk("l21", rng.choice([0.01, 0.05]))
+        W0 = np.zeros((p + fi, T))
+        for j in range(p):
+            r = rng.random()
+            if r < 0.5:
+                W0[j, 1:] = [rng.choice([0.5, -1.0, 2.0]) for _ in range(T - 1)]      # zero on the first task only
+            elif r < 0.7:
+                W0[j] = [rng.choice([0.5, -1.0]) for _ in range(T)]
+        case.w_init = W0
+        case.sparse = rng.random() < 0.3
+        case.knobs.update(p0=rng.choice([1, 1, 2]), use_acc=True, max_iter=rng.choice([1, 2, 5, 50]),
+                          max_epochs=rng.choice([7, 8, 14, 100]), tol=rng.choice([1e-3, 1e-8]), ws_strategy="subdiff")
+        res = bbox.run_case(case)
+        rep.count(f"mt-warm:{'csc' if case.sparse else 'dense'}:fi={fi}", False, ("mtwarm", chunk, c))
+        if res["err"] is not None:
+            rep.violate(f"MultiTaskBCD.solve fails from a user-supplied start: {res['err'][:140]}",
+                        dict(case.signature(site="MultiTaskBCD.solve"), kind="raises"), case=case.describe(), impl_output=res["err"])
+            continue
+        for o in ("buffer", "cert"):
+            bbox.ORACLES[o](case, res, rep, rng)
+    return rep
+
+
+def run_mt_warm(ctx, rep, n_quick=36, n_thorough=300, chunks=6):
+    n = ctx.n(n_quick, n_thorough)
+    tasks = [(ctx.prop, ctx.seed, ch, max(1, n // chunks)) for ch in range(chunks)]
+    with ProcessPoolExecutor(max_workers=min(len(tasks), max(1, (os.cpu_count() or 2) - 1))) as ex:
+        for r in ex.map(_warm_worker, tasks):
+            merge(rep, r)
